@@ -223,7 +223,11 @@ class _Stack:
 
     for i in range(0, 2 * n, 2):
       v_elt, k_elt = args[i], args[i + 1]
-      ret.add(k_elt, v_elt)
+      try:
+        ret.add(k_elt, v_elt)
+      except TypeError as e:
+        # An unhashable constant key, e.g. {[1]: 2}. Report it like build() does.
+        raise ConstantError(f'TypeError: {e.args[0]}', op) from e
       k_elt.op.folded = op
       v_elt.op.folded = op
     return ret.build()
@@ -376,7 +380,11 @@ class _FoldConstants(pyc.CodeVisitor):
             map1, map2 = elements.elements
             if map2.typ[0] != 'map':
               # We have some malformed code, e.g. {**42}
-              name = map2.typ[1].__name__
+              if map2.typ[0] == 'prim':
+                name = map2.typ[1].__name__
+              else:
+                # For a collection constant, typ is (tag, element types).
+                name = map2.typ[0]
               msg = f'Value after ** must be an mapping, not {name}'
               raise ConstantError(msg, op)
             tag1, (kt1, vt1) = map1.typ
